@@ -118,6 +118,25 @@ def replay_case(arg):
                     slw = smcdrv.to_np(sub.log_w).astype(np.float64)
                     if not np.all(np.where(dead[rows], np.isneginf(slw), np.abs(slw - exp_lw[rows]) <= tol_log)):
                         out["viol"].append((f"WeightDef|select:{sname}|{tag}", f"log_w of selection {slw.tolist()} != rows {rows} of {exp_lw.tolist()}"))
+                # 5c. re-weighting: the log-likelihood of the same object is replaced (here: + c ln 2 on every row)
+                #     and compute_weights() is called again - every functional follows (ShiftLaw on one object)
+                if sh == 0 and ci % 2 == 0:
+                    cshift = 5
+                    try:
+                        s2 = Samples(x, log_likelihood=ll, log_prior=lp, log_q=lq, xp=xp, dtype=dt)
+                        s2.log_likelihood = s2.array_to_namespace(np.where(dead, -np.inf, ll + cshift * LN2))
+                        s2.compute_weights()
+                        le2 = float(smcdrv.to_np(s2.log_evidence))
+                        ess2 = float(smcdrv.to_np(s2.effective_sample_size))
+                        if not (math.isfinite(le2) and abs(le2 - (exp_logz + cshift * LN2)) <= tol_log + 16 * eps * (1 + abs(exp_logz))):
+                            out["viol"].append((f"ShiftLaw|recompute|{tag}", f"after adding {cshift} ln 2 to every log-likelihood and compute_weights(), log_evidence is {le2!r}, expected {exp_logz + cshift * LN2!r} (ks={ks})"))
+                        if not (math.isfinite(ess2) and abs(ess2 - exp_ess) <= rel * exp_ess + rel):
+                            out["viol"].append((f"ShiftLaw|recompute-ess|{tag}", f"after re-weighting ESS is {ess2!r}, expected {exp_ess!r}"))
+                        ev2 = getattr(s2, "evidence", None)
+                        if ev2 is not None and math.isfinite(float(smcdrv.to_np(ev2))) and abs(math.log(max(float(smcdrv.to_np(ev2)), 1e-300)) - le2) > 1e-3:
+                            out["viol"].append((f"EvidenceDef|recompute|{tag}", f"evidence {float(smcdrv.to_np(ev2))!r} and log_evidence {le2!r} of one object disagree after compute_weights()"))
+                    except Exception as ex:
+                        out["viol"].append((f"NeverRaises|recompute|{tag}|{type(ex).__name__}", f"re-weighting raised {type(ex).__name__}: {str(ex)[:120]}"))
                 out["perm"].append(((tuple(sorted(ks)), tuple(c["split"]), ns, dt, sh), (le, float(smcdrv.to_np(s.effective_sample_size)), lee)))
                 # 6. rejection sampling with scripted uniforms on the lattice 2^-j (boundary excluded)
                 js = []
